@@ -752,6 +752,10 @@ lyd_insert_node(struct lyd_node *parent, struct lyd_node **first_sibling_p, stru
         parent = lyd_parent(*first_sibling_p);
     }
     first_sibling = parent ? lyd_child(parent) : *first_sibling_p;
+    if (first_sibling && first_sibling->prev->next) {
+        /* not the actual first sibling (e.g. only the first sibling of its module), the functions below rely on it */
+        first_sibling = lyd_first_sibling(first_sibling);
+    }
 
     if ((order == LYD_INSERT_NODE_LAST) || !node->schema || (first_sibling && (first_sibling->flags & LYD_EXT))) {
         lyd_insert_node_last(parent, &first_sibling, node);
